@@ -1,3 +1,301 @@
-import GoStd.Bytes
+/-
+C19 — The backend rotation follows name resolution, with bounded failure tolerance.
+
+"For a backend given by host name the set of backends in rotation tracks name resolution: after
+each successful resolution the rotation contains exactly the resolved addresses (new ones added,
+vanished ones removed and closed); up to three consecutive resolution failures leave the set
+untouched and the fourth empties it. Every addition and removal is also reflected in which source
+addresses the proxy recognises as its backends when attributing responses."
+
+Model: Side.Resolver (resolver.go addressResolved, backend.go hostIPChanged, proxy.go index
+update), composed synchronously — the property grants quiescence between steps; the relative
+order of notification goroutines without quiescence is not modelled (partial).
+Domain: duplicate-free resolutions of ':'-free (IPv4) addresses, one host name per rotation.
+-/
+import Side.Resolver
+import Props.C05
+open GoStd Side.Res
+
 namespace Props.C19
+
+open Props.C05 (WF wf_add wf_remove)
+
+theorem worldStep_fail (port : Bytes) (w : World) :
+    worldStep port w .fail =
+      if w.entry.failed + 1 > failLimit ∧ w.entry.addrs.length > 0
+      then { entry := { addrs := [], failed := 0 }, rot := applyChange w.rot port [] w.entry.addrs }
+      else { w with entry := { w.entry with failed := w.entry.failed + 1 } } := by
+  unfold worldStep step
+  by_cases hc : w.entry.failed + 1 > failLimit ∧ w.entry.addrs.length > 0
+  · simp [hc.1, hc.2]
+  · have : ¬ ((decide (w.entry.failed + 1 > failLimit) && decide (w.entry.addrs.length > 0)) = true) := by
+      simpa using hc
+    simp [this, hc]
+
+theorem worldStep_ok (port : Bytes) (w : World) (S : List Addr) :
+    worldStep port w (.ok S) =
+      if (sub S w.entry.addrs).length > 0 ∨ (sub w.entry.addrs S).length > 0
+      then { entry := { addrs := S, failed := 0 }, rot := applyChange w.rot port (sub S w.entry.addrs) (sub w.entry.addrs S) }
+      else { w with entry := { addrs := S, failed := 0 } } := by
+  unfold worldStep step
+  by_cases hc : (sub S w.entry.addrs).length > 0 ∨ (sub w.entry.addrs S).length > 0
+  · have : (decide ((sub S w.entry.addrs).length > 0) || decide ((sub w.entry.addrs S).length > 0)) = true := by
+      simpa using hc
+    simp [this, hc]
+  · have : ¬ ((decide ((sub S w.entry.addrs).length > 0) || decide ((sub w.entry.addrs S).length > 0)) = true) := by
+      simpa using hc
+    simp [this, hc]
+
+/-- rotation, list/map agreement and the proxy's index agree -/
+def RotInv (r : Rot) : Prop :=
+  WF r.rr ∧ r.index.Nodup ∧ ∀ a, a ∈ r.index ↔ a ∈ r.rr.backends
+
+theorem rotInv_init : RotInv {} := by
+  refine ⟨Props.C05.wf_init, by simp, by simp⟩
+
+theorem rot_add_inv (r : Rot) (a : Addr) (h : RotInv r) (ha : a ∉ r.rr.backends) : RotInv (r.add a) := by
+  obtain ⟨hwf, hnd, hix⟩ := h
+  have hai : a ∉ r.index := fun m => ha ((hix a).mp m)
+  have hc : r.index.contains a = false := by simpa using hai
+  refine ⟨wf_add r.rr a hwf ha, ?_, ?_⟩
+  · simp only [Rot.add, hc]
+    exact List.nodup_append.mpr ⟨hnd, by simp, by intro x hx y hy; simp at hy; subst hy; exact fun e => hai (e ▸ hx)⟩
+  · intro x
+    simp only [Rot.add, hc, Side.RR.add, Bool.false_eq_true, ↓reduceIte, List.mem_append, List.mem_singleton, hix x]
+
+theorem rot_add_mem (r : Rot) (a b : Addr) : b ∈ (r.add a).rr.backends ↔ b ∈ r.rr.backends ∨ b = a := by
+  simp [Rot.add, Side.RR.add]
+
+theorem rot_remove_inv (r : Rot) (a : Addr) (h : RotInv r) : RotInv (r.remove a) := by
+  obtain ⟨hwf, hnd, hix⟩ := h
+  refine ⟨wf_remove r.rr a hwf, ?_, ?_⟩
+  · simp only [Rot.remove]; split
+    · exact hnd.erase a
+    · exact hnd
+  · intro x
+    by_cases hk : r.rr.keys.contains a = true
+    · simp only [Rot.remove, Side.RR.remove, hk, ↓reduceIte]
+      by_cases hx : x = a
+      · subst hx
+        exact ⟨fun m => absurd m hnd.not_mem_erase, fun m => absurd m hwf.1.not_mem_erase⟩
+      · rw [List.mem_erase_of_ne hx, List.mem_erase_of_ne hx]; exact hix x
+    · simp only [Rot.remove, Side.RR.remove, hk]
+      simpa using hix x
+
+theorem rot_remove_mem (r : Rot) (a b : Addr) (h : RotInv r) :
+    b ∈ (r.remove a).rr.backends ↔ b ∈ r.rr.backends ∧ b ≠ a := by
+  obtain ⟨hwf, _, _⟩ := h
+  obtain ⟨hgone, hrest⟩ := Props.C05.C05_removed_gone r.rr a hwf
+  simp only [Rot.remove]
+  by_cases hb : b = a
+  · subst hb; simp [hgone]
+  · simp [hrest b hb, hb]
+
+/-- adding a duplicate-free list of addresses none of which is registered -/
+theorem foldl_add (l : List Addr) (r : Rot) (h : RotInv r) (hnd : l.Nodup) (hdis : ∀ a ∈ l, a ∉ r.rr.backends) :
+    RotInv (l.foldl Rot.add r) ∧ ∀ b, b ∈ (l.foldl Rot.add r).rr.backends ↔ b ∈ r.rr.backends ∨ b ∈ l := by
+  induction l generalizing r with
+  | nil => simp [h]
+  | cons a l ih =>
+    simp only [List.foldl_cons]
+    have hnd' := List.nodup_cons.mp hnd
+    have hr' := rot_add_inv r a h (hdis a (by simp))
+    have hdis' : ∀ x ∈ l, x ∉ (r.add a).rr.backends := by
+      intro x hx hm
+      rcases (rot_add_mem r a x).mp hm with hm | rfl
+      · exact hdis x (by simp [hx]) hm
+      · exact hnd'.1 hx
+    obtain ⟨i1, i2⟩ := ih (r.add a) hr' hnd'.2 hdis'
+    refine ⟨i1, ?_⟩
+    intro b
+    rw [i2 b, rot_add_mem]
+    simp only [List.mem_cons]
+    tauto
+
+theorem foldl_remove (l : List Addr) (r : Rot) (h : RotInv r) :
+    RotInv (l.foldl Rot.remove r) ∧ ∀ b, b ∈ (l.foldl Rot.remove r).rr.backends ↔ b ∈ r.rr.backends ∧ b ∉ l := by
+  induction l generalizing r with
+  | nil => simp [h]
+  | cons a l ih =>
+    simp only [List.foldl_cons]
+    obtain ⟨i1, i2⟩ := ih (r.remove a) (rot_remove_inv r a h)
+    refine ⟨i1, ?_⟩
+    intro b
+    rw [i2 b, rot_remove_mem r a b h]
+    simp only [List.mem_cons, not_or]
+    tauto
+
+/-- `ip:port` for ':'-free addresses; injective in the address -/
+theorem hostPort_v4 (ip port : Bytes) (h : (58 : UInt8) ∉ ip) : hostPort ip port = ip ++ 58 :: port := by
+  have : contains 58 ip = false := by
+    simp only [contains, List.any_eq_false, beq_iff_eq]
+    intro x hx e; exact h (e ▸ hx)
+  simp [hostPort, this]
+
+theorem hostPort_inj (a b port : Bytes) (ha : (58 : UInt8) ∉ a) (hb : (58 : UInt8) ∉ b)
+    (h : hostPort a port = hostPort b port) : a = b := by
+  rw [hostPort_v4 a port ha, hostPort_v4 b port hb] at h
+  exact List.append_cancel_right h
+
+def V4 (l : List Addr) : Prop := ∀ ip ∈ l, (58 : UInt8) ∉ ip
+
+/-- the world invariant: the rotation holds exactly the entry's addresses -/
+def Sync (port : Bytes) (w : World) : Prop :=
+  RotInv w.rot ∧ w.entry.addrs.Nodup ∧ V4 w.entry.addrs ∧
+  ∀ a, a ∈ w.rot.rr.backends ↔ ∃ ip ∈ w.entry.addrs, a = hostPort ip port
+
+theorem sync_init (port : Bytes) : Sync port {} := by
+  refine ⟨rotInv_init, by simp, by simp [V4], by simp⟩
+
+theorem mem_sub (a1 a2 : List Addr) (x : Addr) : x ∈ sub a1 a2 ↔ x ∈ a1 ∧ x ∉ a2 := by
+  simp [sub]
+
+/-- **Tracks.** After a successful resolution with a duplicate-free set S the rotation (and the
+proxy's address index) contains exactly S's addresses; and the invariant is kept. -/
+theorem C19_tracks (port : Bytes) (w : World) (S : List Addr) (h : Sync port w) (hS : S.Nodup) (hv : V4 S) :
+    Sync port (worldStep port w (.ok S)) ∧ (worldStep port w (.ok S)).entry.addrs = S ∧
+    (∀ a, a ∈ (worldStep port w (.ok S)).rot.rr.backends ↔ ∃ ip ∈ S, a = hostPort ip port) ∧
+    (∀ a, a ∈ (worldStep port w (.ok S)).rot.index ↔ ∃ ip ∈ S, a = hostPort ip port) := by
+  obtain ⟨hri, hnd, hv4, hmem⟩ := h
+  -- membership after applying the change
+  have hchange : RotInv (applyChange w.rot port (sub S w.entry.addrs) (sub w.entry.addrs S)) ∧
+      ∀ a, a ∈ (applyChange w.rot port (sub S w.entry.addrs) (sub w.entry.addrs S)).rr.backends ↔ ∃ ip ∈ S, a = hostPort ip port := by
+    have hnewnd : ((sub S w.entry.addrs).map (hostPort · port)).Nodup := by
+      apply List.Nodup.map_on
+      · intro x hx y hy hxy
+        exact hostPort_inj x y port (hv x ((mem_sub _ _ _).mp hx).1) (hv y ((mem_sub _ _ _).mp hy).1) hxy
+      · exact hS.sublist List.filter_sublist
+    have hdis : ∀ a ∈ (sub S w.entry.addrs).map (hostPort · port), a ∉ w.rot.rr.backends := by
+      intro a ha hm
+      obtain ⟨ip, hip, rfl⟩ := List.mem_map.mp ha
+      obtain ⟨ip', hip', he⟩ := (hmem _).mp hm
+      have := hostPort_inj ip ip' port (hv ip ((mem_sub _ _ _).mp hip).1) (hv4 ip' hip') he
+      subst this
+      exact ((mem_sub _ _ _).mp hip).2 hip'
+    obtain ⟨a1, a2⟩ := foldl_add _ w.rot hri hnewnd hdis
+    obtain ⟨r1, r2⟩ := foldl_remove ((sub w.entry.addrs S).map (hostPort · port)) _ a1
+    refine ⟨r1, ?_⟩
+    intro a
+    unfold applyChange
+    rw [r2 a, a2 a, hmem a]
+    constructor
+    · rintro ⟨hin, hnot⟩
+      rcases hin with ⟨ip, hip, rfl⟩ | hin
+      · by_cases hs : ip ∈ S
+        · exact ⟨ip, hs, rfl⟩
+        · exact absurd (List.mem_map.mpr ⟨ip, (mem_sub _ _ _).mpr ⟨hip, hs⟩, rfl⟩) hnot
+      · obtain ⟨ip, hip, rfl⟩ := List.mem_map.mp hin
+        exact ⟨ip, ((mem_sub _ _ _).mp hip).1, rfl⟩
+    · rintro ⟨ip, hip, rfl⟩
+      refine ⟨?_, ?_⟩
+      · by_cases ho : ip ∈ w.entry.addrs
+        · left; exact ⟨ip, ho, rfl⟩
+        · right; exact List.mem_map.mpr ⟨ip, (mem_sub _ _ _).mpr ⟨hip, ho⟩, rfl⟩
+      · intro hm
+        obtain ⟨ip', hip', he⟩ := List.mem_map.mp hm
+        have hm' := (mem_sub _ _ _).mp hip'
+        have := hostPort_inj ip' ip port (hv4 ip' hm'.1) (hv ip hip) he
+        subst this
+        exact hm'.2 hip
+  have hstep := worldStep_ok port w S
+  have hnochange : ¬ ((sub S w.entry.addrs).length > 0 ∨ (sub w.entry.addrs S).length > 0) →
+      applyChange w.rot port (sub S w.entry.addrs) (sub w.entry.addrs S) = w.rot := by
+    intro hc
+    simp only [not_or, Nat.not_lt, Nat.le_zero, List.length_eq_zero_iff] at hc
+    simp [applyChange, hc.1, hc.2]
+  have hrot : (worldStep port w (.ok S)).rot = applyChange w.rot port (sub S w.entry.addrs) (sub w.entry.addrs S) := by
+    rw [hstep]; split
+    · rfl
+    · rename_i hc; exact (hnochange hc).symm
+  have hent : (worldStep port w (.ok S)).entry.addrs = S := by
+    rw [hstep]; split <;> rfl
+  refine ⟨⟨by rw [hrot]; exact hchange.1, by rw [hent]; exact hS, by rw [hent]; exact hv, ?_⟩, hent, ?_, ?_⟩
+  · intro a; rw [hrot, hent]; exact hchange.2 a
+  · intro a; rw [hrot]; exact hchange.2 a
+  · intro a; rw [hrot, hchange.1.2.2 a]; exact hchange.2 a
+
+/-- **Tolerance.** A failure that is at most the third in a row leaves rotation and index untouched. -/
+theorem C19_tolerance (port : Bytes) (w : World) (h : w.entry.failed < 3) :
+    (worldStep port w .fail).rot = w.rot ∧ (worldStep port w .fail).entry.addrs = w.entry.addrs ∧
+    (worldStep port w .fail).entry.failed = w.entry.failed + 1 := by
+  have : ¬ (w.entry.failed + 1 > failLimit ∧ w.entry.addrs.length > 0) := by simp [failLimit]; omega
+  rw [worldStep_fail, if_neg this]
+  exact ⟨rfl, rfl, rfl⟩
+
+/-- **Fourth failure.** The fourth consecutive failure empties a non-empty set (rotation and index)
+and restarts the count. -/
+theorem C19_fourth_empties (port : Bytes) (w : World) (h : Sync port w) (hf : w.entry.failed = 3)
+    (hne : w.entry.addrs ≠ []) :
+    (worldStep port w .fail).rot.rr.backends = [] ∧ (worldStep port w .fail).rot.index = [] ∧
+    (worldStep port w .fail).entry = { addrs := [], failed := 0 } ∧ Sync port (worldStep port w .fail) := by
+  obtain ⟨hri, hnd, hv4, hmem⟩ := h
+  have hlen : w.entry.addrs.length > 0 := List.length_pos_iff.mpr hne
+  have hstep : worldStep port w .fail = { entry := { addrs := [], failed := 0 }, rot := applyChange w.rot port [] w.entry.addrs } := by
+    rw [worldStep_fail, if_pos ⟨by simp [hf, failLimit], hlen⟩]
+  obtain ⟨r1, r2⟩ := foldl_remove (w.entry.addrs.map (hostPort · port)) w.rot hri
+  have hempty : (applyChange w.rot port [] w.entry.addrs).rr.backends = [] := by
+    apply List.eq_nil_iff_forall_not_mem.mpr
+    intro a ha
+    simp only [applyChange, List.map_nil, List.foldl_nil] at ha
+    obtain ⟨hin, hnot⟩ := (r2 a).mp ha
+    obtain ⟨ip, hip, rfl⟩ := (hmem a).mp hin
+    exact hnot (List.mem_map.mpr ⟨ip, hip, rfl⟩)
+  have hinv : RotInv (applyChange w.rot port [] w.entry.addrs) := by
+    simpa [applyChange] using r1
+  have hidx : (applyChange w.rot port [] w.entry.addrs).index = [] := by
+    apply List.eq_nil_iff_forall_not_mem.mpr
+    intro a ha
+    have := (hinv.2.2 a).mp ha
+    rw [hempty] at this; cases this
+  rw [hstep]
+  refine ⟨hempty, hidx, rfl, ⟨hinv, by simp, by simp [V4], ?_⟩⟩
+  intro a; simp [hempty]
+
+/-- a failure always keeps the invariant -/
+theorem sync_fail (port : Bytes) (w : World) (h : Sync port w) : Sync port (worldStep port w .fail) := by
+  by_cases hc : w.entry.failed + 1 > failLimit ∧ w.entry.addrs.length > 0
+  · have hne : w.entry.addrs ≠ [] := List.length_pos_iff.mp hc.2
+    obtain ⟨hri, hnd, hv4, hmem⟩ := h
+    have hstep : worldStep port w .fail = { entry := { addrs := [], failed := 0 }, rot := applyChange w.rot port [] w.entry.addrs } := by
+      rw [worldStep_fail, if_pos hc]
+    obtain ⟨r1, r2⟩ := foldl_remove (w.entry.addrs.map (hostPort · port)) w.rot hri
+    have hinv : RotInv (applyChange w.rot port [] w.entry.addrs) := by simpa [applyChange] using r1
+    rw [hstep]
+    refine ⟨hinv, by simp, by simp [V4], ?_⟩
+    intro a
+    simp only [List.not_mem_nil, false_and, exists_false, iff_false]
+    intro ha
+    simp only [applyChange, List.map_nil, List.foldl_nil] at ha
+    obtain ⟨hin, hnot⟩ := (r2 a).mp ha
+    obtain ⟨ip, hip, rfl⟩ := (hmem a).mp hin
+    exact hnot (List.mem_map.mpr ⟨ip, hip, rfl⟩)
+  · rw [worldStep_fail, if_neg hc]; exact h
+
+def Dom : List Outcome → Prop
+  | [] => True
+  | .ok S :: os => S.Nodup ∧ V4 S ∧ Dom os
+  | .fail :: os => Dom os
+
+/-- **History.** In every state reached by any history of duplicate-free IPv4 resolutions and
+failures, rotation, address map and proxy index hold exactly the entry's current addresses. -/
+theorem C19_history (port : Bytes) (os : List Outcome) (hd : Dom os) :
+    Sync port (os.foldl (worldStep port) {}) := by
+  have : ∀ (os : List Outcome) (w : World), Sync port w → Dom os → Sync port (os.foldl (worldStep port) w) := by
+    intro os
+    induction os with
+    | nil => intro w hw _; exact hw
+    | cons o os ih =>
+      intro w hw hd
+      simp only [List.foldl_cons]
+      cases o with
+      | ok S => exact ih _ (C19_tracks port w S hw hd.1 hd.2.1).1 hd.2.2
+      | fail => exact ih _ (sync_fail port w hw) hd
+  exact this os {} (sync_init port) hd
+
+/-- F3: the failure limit in the code is 3 (`entry.failed > 3`). -/
+theorem failLimit_is_three : failLimit = 3 := rfl
+
+/-! ### non-vacuity -/
+example : (worldStep [53] (worldStep [53] {} (.ok [[49], [50]])) (.ok [[50]])).rot.rr.backends = [[50, 58, 53]] := by decide
+
 end Props.C19
